@@ -71,14 +71,15 @@ Notation falsy := (falsy fal).
 Notation unp_raw := (unp_raw fal cont).
 Notation unp_map := (unp_map fal cont).
 Notation sync_db := (sync_db fal cont).
-Notation sync := (sync fal cont).
-Notation ack := (ack fal).
-Notation compile_op := (compile_op fal cont).
+(* the code as pinned: both repairs present (Model.v, variants fx1 fx2) *)
+Notation sync := (sync true fal cont).
+Notation ack := (ack true fal).
+Notation compile_op := (compile_op true true fal cont).
 Notation tx_op := (tx_op fal cont).
 Notation init_worker := (init_worker fal cont).
-Notation step := (step fal cont).
-Notation run := (run fal cont).
-Notation final := (final fal cont).
+Notation step := (step true true fal cont).
+Notation run := (run true true fal cont).
+Notation final := (final true true fal cont).
 
 (* ------------------------------------------------------------------ *)
 (* what the worker stores: true of every state and every fault         *)
@@ -187,21 +188,8 @@ Definition exact (o : op) (ou : out) : Prop :=
   | _, _ => True
   end.
 
-Notation truthy := (truthy fal).
-
-Lemma truthy_spec : forall x, truthy x = true -> is_none x = false /\ fal x = false.
-Proof.
-  unfold Model.truthy, Model.falsy; intros x H. apply negb_true_iff in H.
-  now apply orb_false_iff in H.
-Qed.
-
-Lemma clean_fault_spec : forall f, clean_fault f = true ->
-  fault_is f 2 = false /\ fault_is f 4 = false /\ f <> FReplyLost.
-Proof.
-  intros f H; destruct f; cbn in *; try (repeat split; congruence).
-  repeat (apply orb_true_iff in H; destruct H as [H|H]); apply N.eqb_eq in H; subst;
-    repeat split; congruence.
-Qed.
+Lemma nn_spec : forall x, nn x = true -> is_none x = false.
+Proof. unfold nn; intros x H. now apply negb_true_iff in H. Qed.
 
 Lemma changed_false : forall a b, changed a b = false -> a = b.
 Proof. unfold changed; intros. apply negb_false_iff in H. now apply N.eqb_eq. Qed.
@@ -227,33 +215,24 @@ Proof.
   - repeat split; discriminate.
 Qed.
 
+(* all-or-nothing: a failed __sync__ leaves the worker as it was *)
+Lemma sync_fail_atomic : forall f r db x r', sync f r db x = SFail r' -> r' = r.
+Proof.
+  intros f r db x r' H. unfold Model.sync in H.
+  destruct (sync_db f r db x) as [[r1 d1]|]; [|now inv H].
+  destruct (opt_unp _ (x_gs x) _); [|now inv H].
+  destruct (opt_unp _ (x_sc x) _); [discriminate | now inv H].
+Qed.
+
 Section CompileClean.
 Variables (b : srv) (r : wrk) (db us gs rc dc sc : N) (f : fault) (x u : wire).
 Hypothesis Hsync : in_sync b r.
-Hypothesis Tus : truthy us = true.
-Hypothesis Tgs : truthy gs = true.
-Hypothesis Trc : truthy rc = true.
-Hypothesis Tdc : truthy dc = true.
-Hypothesis Tsc : truthy sc = true.
-Hypothesis Hf : clean_fault f = true.
+Hypothesis Tus : nn us = true.
+Hypothesis Tgs : nn gs = true.
+Hypothesis Trc : nn rc = true.
+Hypothesis Tdc : nn dc = true.
+Hypothesis Tsc : nn sc = true.
 Hypothesis Ep : preargs b db us gs rc dc sc = (x, u).
-
-Lemma cc_fail : forall r', sync f r db x = SFail r' -> r' = r.
-Proof.
-  intros r' H. unfold Model.sync in H.
-  destruct (sync_db f r db x) as [[r1 d1]|] eqn:E; [|now inv H].
-  exfalso.
-  destruct (clean_fault_spec _ Hf) as (F2 & F4 & _).
-  destruct (preargs_wire _ _ _ _ _ _ _ _ _ Ep) as (_ & _ & Wg & _ & Ws).
-  destruct (opt_unp (unp_raw f 2) (x_gs x) (w_gs r1)) as [cg|] eqn:Eg.
-  - destruct (opt_unp (unp_map f 4) (x_sc x) (w_sc (set_wgs r1 cg))) as [cs|] eqn:Es; [discriminate|].
-    destruct (x_sc x) as [v|] eqn:Ev; [|discriminate]. cbn in Es.
-    rewrite (Ws v eq_refl) in Es. unfold Model.unp_map in Es. rewrite F4 in Es.
-    destruct (falsy sc); discriminate.
-  - destruct (x_gs x) as [v|] eqn:Ev; [|discriminate]. cbn in Eg.
-    rewrite (Wg v eq_refl) in Eg. unfold Model.unp_raw in Eg. rewrite F2 in Eg.
-    destruct (truthy_spec _ Tgs) as [_ Fg]. rewrite Fg in Eg. discriminate.
-Qed.
 
 Lemma cc_ok : forall r' d, sync f r db x = SOk r' d ->
   d = mkD (cont us) (cont rc) (cont dc) /\ w_gs r' = cont gs /\ w_sc r' = cont sc /\
@@ -265,7 +244,7 @@ Proof.
   apply sync_ok_spec in H as (r1 & E & _ & Hl & Hg1 & Hg2 & Hs1 & Hs2).
   apply sync_db_spec in E as (_ & Hu1 & Hr1 & Hd1 & Hold).
   destruct (preargs_wire _ _ _ _ _ _ _ _ _ Ep) as (Wu & Wr & Wg & Wd & Ws).
-  destruct (truthy_spec _ Tus) as [Nu _]. destruct (truthy_spec _ Tgs) as [Ng _].
+  pose proof (nn_spec _ Tus) as Nu. pose proof (nn_spec _ Tgs) as Ng.
   destruct (preargs_unsent _ _ _ _ _ _ _ _ _ Ep Nu Ng) as (Uu & Ur & Ud & Ug & Us).
   destruct Hsync as (Sdb & Sg & Ss & _).
   repeat split; auto.
@@ -291,19 +270,14 @@ Proof.
 Qed.
 
 
-Lemma truthy_falsy : forall v, truthy v = true -> falsy v = false.
-Proof. unfold Model.truthy; intros; now apply negb_true_iff. Qed.
-
 Lemma cc_ack : exists b1, ack b db u = Some b1 /\
   find db (b_dbs b1) = Some (mkP us rc dc) /\
   (forall db', db' <> db -> find db' (b_dbs b1) = find db' (b_dbs b)) /\
   b_gs b1 = gs /\ b_sc b1 = sc /\ b_last b1 = b_last b.
 Proof.
-  destruct (truthy_spec _ Tus) as [Nu _]. destruct (truthy_spec _ Tgs) as [Ng _].
-  destruct (truthy_spec _ Trc) as [Nr _]. destruct (truthy_spec _ Tdc) as [Nd _].
-  destruct (truthy_spec _ Tsc) as [Ns _].
-  pose proof (truthy_falsy _ Tus) as Fu. pose proof (truthy_falsy _ Trc) as Fr.
-  pose proof (truthy_falsy _ Tdc) as Fd.
+  pose proof (nn_spec _ Tus) as Nu. pose proof (nn_spec _ Tgs) as Ng.
+  pose proof (nn_spec _ Trc) as Nr. pose proof (nn_spec _ Tdc) as Nd.
+  pose proof (nn_spec _ Tsc) as Ns.
   unfold preargs in Ep. rewrite (raw_wire_nn _ Nu), (raw_wire_nn _ Ng) in Ep.
   destruct (find db (b_dbs b)) as [pd|] eqn:E.
   - destruct pd as [pu pr pc]; cbn in Ep.
@@ -311,7 +285,7 @@ Proof.
     destruct (changed (b_gs b) gs) eqn:C3; destruct (changed pc dc) eqn:C4;
     destruct (changed (b_sc b) sc) eqn:C5; inv Ep;
     unfold Model.ack; cbn; rewrite ?E; cbn; unfold given, pick, pick_nn; cbn;
-    rewrite ?Nu, ?Ng, ?Nr, ?Nd, ?Ns, ?Fu, ?Fr, ?Fd; cbn;
+    rewrite ?Nu, ?Ng, ?Nr, ?Nd, ?Ns; cbn;
     repeat match goal with H : changed _ _ = false |- _ => apply changed_false in H; subst end;
     (eexists; split; [reflexivity|]); cbn;
     rewrite ?find_upsert_same; repeat split; auto; intros; now apply find_upsert_other.
@@ -357,8 +331,8 @@ Proof. now destruct r. Qed.
 
 Lemma clean_compile : forall b r n m db us gs rc dc sc f b' r' x o re,
   in_sync b r ->
-  truthy us = true -> truthy gs = true -> truthy rc = true -> truthy dc = true ->
-  truthy sc = true -> clean_fault f = true ->
+  nn us = true -> nn gs = true -> nn rc = true -> nn dc = true ->
+  nn sc = true -> clean_fault f = true ->
   compile_op b r n m db us gs rc dc sc f = (b', r', x, o, re) ->
   in_sync b' r' /\
   (o = ObsNone \/ o = ObsC (cont us) (cont gs) (cont rc) (cont dc) (cont sc)).
@@ -367,7 +341,7 @@ Proof.
   unfold Model.compile_op in H.
   destruct (preargs b db us gs rc dc sc) as [x0 u] eqn:Ep.
   assert (Hfail : forall r1, sync f r db x0 = SFail r1 -> r1 = r)
-    by (intros r1; apply (cc_fail b r db us gs rc dc sc f x0 u Hs Tg Hf Ep)).
+    by (intros r1; apply sync_fail_atomic).
   assert (Hok : forall r1 d, sync f r db x0 = SOk r1 d ->
             d = mkD (cont us) (cont rc) (cont dc) /\ w_gs r1 = cont gs /\ w_sc r1 = cont sc /\
             w_last r1 = w_last r /\ find db (w_dbs r1) = Some d /\
@@ -470,8 +444,6 @@ Qed.
 Lemma sys_sync_same : forall s n, sys_sync s -> sys_sync (mkSys (ws s) n).
 Proof. intros s n Hs w b r Hf. eapply Hs; eauto. Qed.
 
-Notation clean_op := (clean_op fal).
-Notation clean_hist := (clean_hist fal).
 
 Lemma step_sync : forall s o s' ou, sys_sync s -> clean_op o = true -> step s o = (s', ou) ->
   sys_sync s' /\ exact o ou.
@@ -592,8 +564,8 @@ Proof.
   intros. unfold Model.sync.
   destruct (sync_db f r db x) as [[r1 d]|] eqn:E; [|now left].
   apply sync_db_dbs in E.
-  destruct (opt_unp _ (x_gs x) _); [|right; eauto].
-  destruct (opt_unp _ (x_sc x) _); cbn; [exact E | right; eauto].
+  destruct (opt_unp _ (x_gs x) _); [|now left].
+  destruct (opt_unp _ (x_sc x) _); cbn; [exact E | now left].
 Qed.
 
 Lemma upsert_grows : forall A k (v : A) l k', find k' l <> None -> find k' (upsert k v l) <> None.
